@@ -5,12 +5,14 @@ SEG_REQ = ["wf_env(self.env)", "wf_segment(self, self.env)", "wf_nodes(nodes)"]
 SEG_YIELDS = ["implies(det(self.env) and no_pending(nodes), out == apply_segment(self, seq(nodes)))",
               "all(wf_node(n) for n in out)"]
 
+SEG_ENS = ["implies(not no_pending(nodes), not no_pending(result))"]
+
 contract("segments:JSONPathSegment.resolve", abstract=True,
-    requires=SEG_REQ, yields=SEG_YIELDS, raises=["JSONPathError"], props=["C01", "C02"])
+    requires=SEG_REQ, yields=SEG_YIELDS, ensures=SEG_ENS, raises=["JSONPathError"], props=["C01", "C02"])
 
 contract("segments:JSONPathChildSegment.resolve",
     requires=["isinstance(self, JSONPathChildSegment)"] + SEG_REQ, unfold=["wf_segment"],
-    yields=SEG_YIELDS,
+    yields=SEG_YIELDS, ensures=SEG_ENS,
     loops={1: ["implies(det(self.env), out == child_seg(seq(self.selectors), seq(nodes), i1))", "all(wf_node(n) for n in out)"],
            2: ["implies(det(self.env), out == child_seg(seq(self.selectors), seq(nodes), i1) + flat_sel(seq(self.selectors), seq(nodes)[i1], i2))",
                "all(wf_node(n) for n in out)"]},
@@ -28,8 +30,8 @@ contract("segments:JSONPathRecursiveDescentSegment._visit",
     lemmas=["mx_kids_monotone", "mx_kids_nonneg"], props=["C01", "C18", "C13"])
 
 contract("segments:JSONPathRecursiveDescentSegment.resolve",
-    requires=["isinstance(self, JSONPathRecursiveDescentSegment)"] + SEG_REQ, unfold=["wf_segment"],
-    yields=SEG_YIELDS,
+    requires=["isinstance(self, JSONPathRecursiveDescentSegment)"] + SEG_REQ, unfold=["wf_segment", "wf_env"],
+    yields=SEG_YIELDS, ensures=SEG_ENS,
     loops={1: ["implies(det(self.env), out == desc_seg(seq(self.selectors), seq(nodes), i1))", "all(wf_node(n) for n in out)"],
            2: ["implies(det(self.env), out == desc_seg(seq(self.selectors), seq(nodes), i1) + child_seg(seq(self.selectors), preorder(seq(nodes)[i1]), i2))",
                "all(wf_node(n) for n in out)"],
@@ -69,7 +71,7 @@ contract("query:JSONPathQuery.find_one",
     raises_iff=[("JSONPathError", "len(seq(finditer_outcome(self, value))) == 0 and not no_pending(finditer_outcome(self, value))")],
     props=["C15", "C13"])
 
-contract("query:JSONPathQuery.singular_query",
+contract("query:JSONPathQuery.singular_query", heavy=True,
     requires=["wf_query(self, self.env)"], unfold=["wf_query", "wf_segment"],
     ensures=["result == singular(seq(self.segments), len(self.segments))"],
     loops={1: ["singular(seq(self.segments), i1)"]},
